@@ -161,12 +161,29 @@ def run(prog, rep, tier):
         swbb, arms, oth = c03.result_arms(body, c)
         ok_t = arms.get(0)
         avoid = body.reachable(ok_t, {p.bb})
+        # region = blocks reachable from the creation's success arm without passing the listing; every
+        # value assigned to the return place inside that region and able to reach a return there must be
+        # an Err (graph formulation: no path enumeration, the region can be large)
         leaks = []
-        for pth in decide.enumerate_paths(body, ok_t, lambda bb: ("push" if bb == p.bb else ("ret" if body.term(bb)[0] == "ret" else None)), opaque_ok=lambda bb: True, max_paths=5000):
-            if pth.end == "ret":
-                rv = decide.returned_variant(body, decide.Path((swbb,) + pth.blocks, pth.decisions, pth.end))
-                if rv != "Err":
-                    leaks.append(rv)
+        region = set(avoid)
+        for bb in sorted(region):
+            vals = []
+            for s_ in body.stmts(bb):
+                if s_[0] == "=" and s_[1] == [0]:
+                    rv = s_[2]
+                    if rv[0] == "agg" and isinstance(rv[1], dict) and "variant" in rv[1]:
+                        vals.append(rv[1]["variant"])
+                    elif rv[0] == "use" and rv[1][0] == "k" and isinstance(rv[1][2], dict) and "variant" in rv[1][2]:
+                        vals.append(rv[1][2]["variant"])
+                    else:
+                        vals.append("expr")
+            t_ = body.term(bb)
+            if t_[0] == "call" and t_[3] == [0]:
+                nm = t_[1].get("d", "") or t_[1].get("o", "")
+                vals.append("Err" if nm.endswith("::from_residual") else "call:" + nm.split("::")[-1])
+            if vals and vals[-1] != "Err":
+                if any(body.term(x)[0] == "ret" for x in body.reachable(bb, {p.bb})):
+                    leaks.append("%s (line %s)" % (vals[-1], body.blocks[bb].get("l")))
         if leaks:
             rep.violation(R183, inst + "|all-paths", "%s: a created temporary file can reach a non-error return (%s) without being listed" % (body.path, sorted(set(map(str, leaks)))))
         # R18.2: creation inside the guard's live range
